@@ -842,6 +842,16 @@ impl Ingester {
         self.broadcast.subscribe()
     }
 
+    /// (subscribers, batches not yet received by every subscriber) of the legacy
+    /// broadcast channel (verification builds only).
+    #[cfg(feature = "verif-hooks")]
+    pub fn verif_broadcast_state(&self) -> (usize, usize) {
+        (
+            self.broadcast.receiver_count(),
+            self.broadcast.queued_len(),
+        )
+    }
+
     /// Get current buffer stats
     pub async fn buffer_stats(&self) -> BufferStats {
         let buffer = self.buffer.read().await;
